@@ -35,4 +35,5 @@ RULE = ('Direct calls of the real LongShortLeveragedOrderSizer through a real Si
         'sign of its weight (or 0), equal to trunc(trunc(after-fee dollars)/price) toward zero (neighbours accepted '
         'within 1e-9 of an integer), hence |q|*p <= A and (|q|+1)*p > A-1, and sum |q|*p <= L x equity x (1+f). '
         'Non-trivial: >= 2 assets, some non-zero weight, percentage fees; distinct = distinct input.')
+RULE += " In half of the cases the weight dict's keys are in shuffled (non-alphabetical) insertion order."
 ASSUMPTIONS = ['weights whose gross exposure is within 1e-8 of zero are used unscaled, as the code documents']
